@@ -19,7 +19,7 @@ func init() {
 	insertOrErr := "insert-if-absent keyed by the child's name; a duplicate name is an error whichever entry comes first (only the error text differs), and RFC 7950 §7.9.2 forbids equal names across the cases of a choice"
 	rv("genutil.FindAllChildren:range(ch)", insertOrErr+"; the Annotation write is an idempotent initialisation keyed by the same name", "branch-on-state:directChildren", "callee-mutates:genutil.addNewChild:errs", "callee-mutates:genutil.addNewChild:shadowChildren", "callee-mutates:genutil.addNewChild:directChildren", "fixed-key-write:directChildren", "last-wins:errs")
 	rv("genutil.addNonChoiceChildren:range(nch)", insertOrErr, "callee-mutates:genutil.addNewChild:errs", "callee-mutates:genutil.addNewChild:m", "last-wins:errs")
-	rv("gogen.CodeGenerator.Generate:range(field.LangType.UnionTypes)", "nil-initialises enumTypeMap[schemaPath] and appends the union's enumerated types to it; the slice is sorted by schema index (sort.Slice) immediately after the loop", "branch-on-state:enumTypeMap", "fixed-key-write:enumTypeMap")
+	rv("gogen.CodeGenerator.Generate:range(ir.Directories[directoryPath].Fields[fn].LangType.UnionTypes)", "nil-initialises enumTypeMap[schemaPath] and appends the union's enumerated types to it; the slice is sorted by schema index (sort.Slice) immediately after the loop", "branch-on-state:enumTypeMap", "fixed-key-write:enumTypeMap")
 	importsSink := "the collected import paths only ever flow into set-maps (addNewKeys) and into proto3Header.Imports, which writeProto3Header sorts before rendering (checked by R-SORTED-SINK)"
 	rv("protogen.stringKeys:range(m)", importsSink, "append-unsorted:ss")
 	rv("protogen.writeProto3MsgNested:range(allImports)", importsSink, "append-unsorted:imports")
